@@ -70,21 +70,26 @@ CONTRACTS = {
             # produce the output), and nothing else is returned
             "all(n in result and len(result[n]) == len(results) for n in node.outputs)",
             "all(old(k in node.outputs) for k in result)",
+            # an item that FAILED contributes None to every list - never the partial values its run had produced before failing
+            "all(results[j].status != RunStatus.FAILED or all(result[n][j] is None for n in node.outputs) for j in range(len(results)))",
         ],
         modifies=[],
         loops=[
             {"modifies": "non-entry", "invariant": [
                 "all(n in collected and is_new(collected[n]) and len(collected[n]) == _i for n in node.outputs)",
                 "all(old(k in node.outputs) for k in collected)",
-                "all(a == b or collected[a] is not collected[b] for a in node.outputs for b in node.outputs)", "is_new(collected)"]},
+                "all(a == b or collected[a] is not collected[b] for a in node.outputs for b in node.outputs)", "is_new(collected)",
+                "all(results[j].status != RunStatus.FAILED or all(collected[n][j] is None for n in node.outputs) for j in range(_i))"]},
             {"modifies": "non-entry", "invariant": [
                 "all(n in collected and is_new(collected[n]) and len(collected[n]) == _i0 + (1 if n in _seq[:_i] else 0) for n in node.outputs)",
                 "all(old(k in node.outputs) for k in collected)",
-                "all(a == b or collected[a] is not collected[b] for a in node.outputs for b in node.outputs)", "is_new(collected)"]},
+                "all(a == b or collected[a] is not collected[b] for a in node.outputs for b in node.outputs)", "is_new(collected)",
+                "all(results[j].status != RunStatus.FAILED or all(collected[n][j] is None for n in node.outputs) for j in range(_i0))", "all(collected[n][_i0] is None for n in _seq[:_i])"]},
             {"modifies": "non-entry", "invariant": [
                 "all(n in collected and is_new(collected[n]) and len(collected[n]) == _i0 + (1 if n in _seq[:_i] else 0) for n in node.outputs)",
                 "all(old(k in node.outputs) for k in collected)",
-                "all(a == b or collected[a] is not collected[b] for a in node.outputs for b in node.outputs)", "is_new(collected)"]},
+                "all(a == b or collected[a] is not collected[b] for a in node.outputs for b in node.outputs)", "is_new(collected)",
+                "all(results[j].status != RunStatus.FAILED or all(collected[n][j] is None for n in node.outputs) for j in range(_i0))", "result.status != RunStatus.FAILED"]},
         ],
     ),
 }
